@@ -62,6 +62,7 @@ type Interp struct {
 	Steps    int64 // total
 	fnsSeen  map[*ssa.Function]bool
 	curFrame *frame
+	sweepHints []*smt.Term
 }
 
 func NewInterp(p *Program, x *Explorer) *Interp {
@@ -94,6 +95,7 @@ func (in *Interp) resetPath() {
 	in.depth = 0
 	in.tagCount = map[string]int{}
 	in.ghost = map[string]Value{}
+	in.sweepHints = nil
 	in.curFrame = nil
 }
 
